@@ -387,6 +387,10 @@ def unsat_request(cls, entry, rnd, k):
         if entry == "tree":
             return None
         mut[{"wtrunc1": "wtrunc", "wtrunc40": "wtrunc", "wappend1": "wappend"}[cls]] = {"wtrunc1": 1, "wtrunc40": 40, "wappend1": 1}[cls]
+    elif cls.startswith("widxlen"):
+        if entry == "tree":
+            return None
+        mut["widxlen"] = cls[len("widxlen"):]
     elif cls.startswith("reqlen"):
         if entry != "tree":
             return None
@@ -404,7 +408,9 @@ def unsat_request(cls, entry, rnd, k):
 def scen_c12(wd, rnd, quick):
     us = classes(wd)["UNSAT"]
     rnd.shuffle(us)
-    sc = [{"c": "reset"}]
+    # (the very first proof of the process is made by ANOTHER instance with other circuit resources of the same size:
+    #  whatever is decoded or derived once per process must not leak into the instance under observation)
+    sc = [{"c": "reset"}, {"c": "foreign"}]
     k = 0
     seen = set()
     for u in us:
